@@ -1,6 +1,7 @@
 package main
 
 import (
+	"context"
 	"encoding/base64"
 	"encoding/json"
 	"fmt"
@@ -156,16 +157,19 @@ var liveVariants = map[string][]string{
 	"id":      {"fresh"},
 	"foreign": {"partner-jwt", "partner-jwt", "partner-jwt-expired", "partner-jwt-unknown-key", "foreign-key-live-jti", "foreign-issuer-id-token", "foreign-issuer-access-jwt", "other-crypto-key-opaque"},
 	"expired": {"opaque-store-expired", "jwt-store-expired", "jwt-resigned-exp-past", "refresh-store-expired", "id-resigned-exp-past"},
-	"revoked": {"opaque-revoked", "jwt-revoked", "refresh-revoked", "refresh-rotated-away", "access-of-rotated-refresh"},
+	"revoked": {"opaque-revoked", "jwt-revoked", "refresh-revoked", "refresh-rotated-away", "access-of-rotated-refresh", "access-session-terminated", "refresh-session-terminated"},
 	"garbage": {"random-b64", "short", "long", "truncated-opaque", "bitflip-opaque", "three-dots", "alg-none-live-jti", "null-payload-signed", "empty-object-signed", "whitespace", "truncated-jwt"},
 }
 
 // makeToken builds a token of the given kind (variant "" = drawn).
-func (c *caseCtx) makeToken(kind, variant string) *tok {
+func (c *caseCtx) makeToken(kind, variant string, isSubject bool) *tok {
 	r := c.r
 	user := pick(r, "user-1", "user-2")
 	if variant == "" {
 		variant = pick(r, liveVariants[kind]...)
+		if kind == "garbage" && isSubject && r.IntN(12) == 0 {
+			variant = "empty" // subject_token= (an empty actor_token would simply mean "no actor")
+		}
 	}
 	t := &tok{Kind: kind, Variant: variant, live: always(false)}
 	st := c.w.Store
@@ -277,6 +281,21 @@ func (c *caseCtx) makeToken(kind, variant string) *tok {
 			rt := m.Refresh
 			t.Str, t.Natural, t.Subject = rt, tRefresh, user
 			t.live = func() bool { return st.RefreshLive(rt) }
+		case "access-session-terminated", "refresh-session-terminated":
+			// what end_session does at the storage: every token of (user, client) dies
+			owner := pick(r, "web", "web2")
+			m := c.mint(owner, user)
+			id := c.w.TokenID(m.Access)
+			err := st.TerminateSession(context.Background(), user, owner)
+			c.note("terminate-session", "user="+user+" client="+owner, fmt.Sprint(err))
+			if variant == "access-session-terminated" {
+				t.Str, t.Natural, t.Subject = m.Access, tAccess, user
+				t.live = func() bool { return st.TokenLive(id) }
+			} else {
+				rt := m.Refresh
+				t.Str, t.Natural, t.Subject = rt, tRefresh, user
+				t.live = func() bool { return st.RefreshLive(rt) }
+			}
 		case "access-of-rotated-refresh":
 			owner := pick(r, "web", "web2")
 			m := c.mint(owner, user)
@@ -331,7 +350,7 @@ func (c *caseCtx) makeToken(kind, variant string) *tok {
 			t.Str = m.Access[:len(m.Access)-20]
 		}
 	}
-	if t.Str == "" && c.failed == "" {
+	if t.Str == "" && c.failed == "" && variant != "empty" {
 		c.failed = "empty-token:" + kind + "/" + variant
 	}
 	t.Form = formOf(t)
